@@ -52,8 +52,10 @@ func c12BaseXML(kind string) []byte {
 	}
 	sp := h.BaseSP()
 	var xml []byte
-	if kind == "response" {
-		g := gridGenuine(sp, 1, "response")
+	if kind == "response" || kind == "response-asrt" {
+		// "response-asrt": the Response itself is unsigned, its assertion carries the signature (the library takes
+		// another path through the decoder for such messages)
+		g := gridGenuine(sp, 1, map[string]string{"response": "response", "response-asrt": "assertions"}[kind])
 		x, _, _, err := g.Render()
 		if err != nil {
 			panic(err)
@@ -132,7 +134,7 @@ func (c *C12Case) payload() []byte {
 }
 
 func genC12(t *rapid.T) C12Case {
-	c := C12Case{Kind: rapid.SampledFrom([]string{"response", "LogoutRequest", "LogoutResponse"}).Draw(t, "kind"), Level: rapid.IntRange(-2, 9).Draw(t, "level")}
+	c := C12Case{Kind: rapid.SampledFrom([]string{"response", "response-asrt", "LogoutRequest", "LogoutResponse"}).Draw(t, "kind"), Level: rapid.IntRange(-2, 9).Draw(t, "level")}
 	limits := []int64{0, 1, 64, 1024, 8 * 1024, 64 * 1024}
 	if h.Thorough() {
 		limits = append(limits, 1024*1024)
@@ -440,6 +442,12 @@ func TestC12_Grid(t *testing.T) {
 			}
 		}
 	}
+	// a configured limit ABOVE the default, and a message between the two: every validator honours its own limit
+	// at every stage (the unverified decoders keep the default and refuse)
+	for _, kind := range []string{"response", "response-asrt", "LogoutRequest"} {
+		cases = append(cases, C12Case{Limit: 8 << 20, Size: defaultLimit + 64<<10, Payload: "valid-padded", Kind: kind, Level: 6, Relation: "default<size<limit"})
+	}
+	cases = append(cases, C12Case{Limit: 1 << 40, Size: defaultLimit + 1, Payload: "valid-ws-padded", Kind: "response-asrt", Level: 1, Relation: "default<size<limit"})
 	for i, n := range []int64{4096, 8192, 16384, 32768, 65536, 131072, 262144} {
 		for d := int64(-2); d <= 3; d++ {
 			kind := []string{"response", "LogoutRequest", "LogoutResponse"}[(i+int(d)+2)%3]
